@@ -215,7 +215,7 @@ func GenConfig(t *rapid.T, p *Profile) Config {
 
 var computeOps = []string{"write", "write", "cancel", "invalidate", "panic", "invalid"}
 var loadOuts = []string{"val", "val", "val", "err", "notfound", "wrappednotfound", "panic"}
-var bulkOuts = []string{"full", "full", "partial", "extra", "partialextra", "empty", "nil", "err", "errpartial", "errextra", "panic"}
+var bulkOuts = []string{"full", "full", "partial", "extra", "partialextra", "empty", "nil", "err", "errpartial", "errextra", "errnotfound", "panic"}
 
 // GenAction draws one action according to the profile's op weights.
 func GenAction(t *rapid.T, p *Profile, cfg *Config, ops []string) Action {
